@@ -4,17 +4,21 @@
 typedef struct { unsigned long len; unsigned long id; } cstring;   /* id: abstract content identity (equal id <=> equal bytes) */
 static inline unsigned long cstring__size(cstring *s) { return s->len; }
 static inline cstring cstring__empty(void) { cstring s; s.len = 0; s.id = 0; return s; }
+unsigned long __CPROVER_uninterpreted_strid(const char *);
+static cstring g_lit;
+static inline cstring *cstring__lit(const char *p) { g_lit.len = 5; g_lit.id = __CPROVER_uninterpreted_strid(p); return &g_lit; }
 
 #define DECL_OPT(N, T) struct opt_##N { _Bool has; T val; }; \
   static inline T *opt_##N##__value(struct opt_##N *o) { __CPROVER_assert(o->has, "optional: value()/operator* on an empty optional"); return &o->val; }
 
 /* abstract sequence: size, one watched element (index wi, value wv); any other element is arbitrary */
 /* SEQ_INV_<N>(p): representation invariant of every stored element (default: none); assumed for elements read, asserted for elements stored */
-#define DECL_SEQ_(P, N, T) struct P##N { unsigned long n; unsigned long wi; T wv; T cur; }; \
+#define DECL_SEQ_(P, N, T) struct P##N { unsigned long n; unsigned long wi; T wv; }; \
+  T P##N##__cur; /* scratch: the arbitrary element last handed out (a separate object, so element pointers have one target each) */ \
   static inline unsigned long P##N##__size(struct P##N *s) { return s->n; } \
   static inline T *P##N##__at(struct P##N *s, unsigned long i) { \
     __CPROVER_assert(i < s->n, "sequence element access in bounds"); \
-    if (i == s->wi) return &s->wv; T fresh; __CPROVER_assume(SEQ_INV_##N(&fresh)); s->cur = fresh; return &s->cur; } \
+    if (i == s->wi) return &s->wv; T fresh; __CPROVER_assume(SEQ_INV_##N(&fresh)); P##N##__cur = fresh; return &P##N##__cur; } \
   static inline void P##N##__push_back(struct P##N *s, T *v) { if (g_exc) return; \
     __CPROVER_assert(SEQ_INV_##N(v), "stored element satisfies the sequence's element invariant"); if (s->n == s->wi) s->wv = *v; s->n++; } \
   static inline void P##N##__clear(struct P##N *s) { s->n = 0; }
@@ -22,7 +26,8 @@ static inline cstring cstring__empty(void) { cstring s; s.len = 0; s.id = 0; ret
   static inline struct seq_##N seq_##N##__empty(void) { struct seq_##N s; s.n = 0; return s; }
 /* A7 BlockTable<T> as seen by CdnsBlock: a sequence in index order (its own implementation: bt.* units) */
 #define DECL_BT(N, T) DECL_SEQ_(bt_, N, T) \
-  static inline unsigned long BlockTable_##N##__size(struct bt_##N *s) { return s->n; }
+  static inline unsigned long BlockTable_##N##__size(struct bt_##N *s) { return s->n; } \
+  static inline void BlockTable_##N##__clear(struct bt_##N *s) { s->n = 0; }
 #define DECL_UMAP(N, K, V) DECL_SEQ_(umap_, N, struct pair_##N)
 #define DECL_PAIR(N, A, B) struct pair_##N { A first; B second; };
 #endif
